@@ -3,7 +3,10 @@ props=[json.loads(l) for l in open('/verif/properties.jsonl')]
 ids=[p['id'] for p in props]
 claimed={
  "C01":("Bounded symbolic model checking of the generator lemmas on the real code: address and port index arithmetic for every subnet / range (math/big interpreted), the ports x addresses combinators, for all values inside the stated bounds.","harness/specs/C01.json; iterator replaced by a seam inside IPs/Ports (its permutation property is C04); chunking and mode selection in command/ are listed as not yet covered in DESIGN.md","5-C01"),
+ "C04":("Bounded symbolic model checking in layers on the real table and iterator code: group selection for every int64 n; per-row number theory (primality by solver over all divisor candidates, generator and coprimality from the certified factorisation); exhaustive permutation check of the real newRangeIterator/Next with math/big interpreted for every n of the small rows and every pair of random draws; concrete orbit check of the first steps on the large rows.","group-theory glue (generator + coprime exponent gives one full cycle; code is uniform in the row) is assumed, not solver-decided; exhaustive walks only for n <= 36 (quick) / 130 (thorough)","5-C04"),
+ "C05":("Bounded symbolic model checking of the real Fill of the tcp/udp/icmp/arp fillers with gopacket's serialisers and checksum code interpreted; every field of the produced frame is compared with an RFC-layout reference for all flag sets, ports, addresses, MACs, option values, random draws and the listed payload lengths, both link modes.","payload lengths as listed; math/rand replaced by a seam returning any value of its contract; sums are normalised modulo associativity/commutativity by the engine before reaching the solver","5-C05"),
  "C06":("Bounded symbolic model checking of the real ProcessPacketData of the arp/tcp/icmp processors with the gopacket decoders interpreted: a valid reply followed by a frame whose every byte is a solver variable (listed lengths, cap==len), both link modes; panics, phantom records and record fields not taken from the same frame are violations.","frame lengths listed in the spec; outer IPv4 header length <= 6 (quick) / 7 (thorough) words; two-frame histories; decoder structs assumed to be the only cross-frame state","5-C06"),
+ "C11":("Bounded symbolic model checking of the ARP-cache code: destination MAC choice for arbitrary addresses in both spellings with/without gateway, the cache loader on every file of <=3 lines over 8 line classes, and two readers plus a writer under every schedule with <=1/2 pre-emptions where every heap store is a pre-emption point (counterexamples confirmed under the Go race detector).","net.IP.String of a symbolic address modelled as an injective rendering; ARP-frame -> JSON -> loader round trip with symbolic addresses is not covered yet; pre-emption bound 1 (quick) / 2 (thorough)","5-C11"),
  "C13":("Bounded symbolic model checking of the real file generators, exclusion filter and ARP-cache stage on target files whose line classes and positions are solver variables (<=3 lines, 11 classes).","line spellings per class are fixed templates; files longer than 3 lines outside the bound","5-C13"),
  "C18":("Bounded symbolic model checking of every option parser on strings whose every byte is a solver variable (all strings up to length L) against reference readers, plus canonical-rendering round trips with symbolic digits / flag subsets.","strings longer than L (4..6 depending on the parser) outside the bound; stdlib strconv/strings/time.ParseDuration are interpreted from their SSA","5-C18"),
  "C20":("Bounded symbolic model checking of the real ReceivePackets loop over every sequence of <=3 (quick) / <=4 (thorough) read outcomes from 12 fault classes, processor failures, and cancellation during any read, under the engine's goroutine/select semantics.","bursts beyond the 100-slot error buffer and sequences longer than the bound are outside the claim; logical clock for the 5 ms back-off","5-C20"),
